@@ -1,5 +1,5 @@
 SPECIFICATION Spec
-CONSTANT Big = TRUE
+CONSTANT Big = TRUE Wide = FALSE
 INVARIANTS Inv AddableIff
 PROPERTY DeployExact
 CHECK_DEADLOCK FALSE
